@@ -1,5 +1,5 @@
 (* PeFacts.v - C03: framehop's PE step against the documented unwind procedure (ms_unwind). *)
-From FH Require Import Consts Word X86 Unwinder Pe X86Unw WordFacts X86Exec RegOrderFacts.
+From FH Require Import Consts Word X86 Unwinder Pe X86Unw WordFacts X86Exec RegOrderFacts X86Walk X86Chain.
 From Coq Require Import Lia ZifyBool ZifyN ZifyNat.
 Open Scope N_scope.
 Arguments N.add : simpl never.
@@ -186,4 +186,437 @@ Proof.
     destruct ((sp rgB + 8 =? sp rg) && (ra =? ip rg')) eqn:Ed; [lia|].
     cbn [fst snd]. split; [reflexivity|]. intros _ r. cbn.
     destruct r; try reflexivity; try (apply Hrf; discriminate).
+Qed.
+
+(* ---------- the unwind-code path ---------- *)
+Definition is_save (o : uop) : bool := match o with USaveNonvol _ _ | USaveXmm _ => true | _ => false end.
+
+(* a mov-save that leaves the registers the frame base is computed from alone *)
+Definition save_ok (u : uinfo) (o : uop) : Prop :=
+  match o with
+  | USaveNonvol r _ => pe_reg r <> RSP /\ (forall fr, ui_fpreg u = Some fr -> pe_reg r <> pe_reg fr)
+  | USaveXmm _ => True
+  | _ => False
+  end.
+
+Lemma resolve_offset_base u rg off :
+  resolve_offset u rg off = match base_of u rg with
+                            | Some b => if b + off <? W64 then Some (b + off) else None
+                            | None => None
+                            end.
+Proof.
+  unfold resolve_offset, base_of. destruct (ui_fpreg u) as [r|]; [|reflexivity]. cbv zeta.
+  destruct (getr rg (pe_reg r) <? ui_fpoff u); reflexivity.
+Qed.
+
+Lemma ms_op_resolve fb u rg m o :
+  (is_save o = true -> fb = base_of u rg) -> ms_op fb u rg m o = resolve_operation u rg m o.
+Proof.
+  intros H. destruct o; try reflexivity; cbn [ms_op resolve_operation]; rewrite resolve_offset_base, <- (H eq_refl);
+    destruct fb as [b|]; try reflexivity; destruct (b + off <? W64); reflexivity.
+Qed.
+
+Lemma base_of_setr u rg r v :
+  r <> RSP -> (forall fr, ui_fpreg u = Some fr -> r <> pe_reg fr) -> base_of u (setr rg r v) = base_of u rg.
+Proof.
+  intros H1 H2. unfold base_of. destruct (ui_fpreg u) as [fr|] eqn:E.
+  - specialize (H2 fr eq_refl). cbv zeta. unfold getr, setr. cbn [rf].
+    destruct (reg_eqb r (pe_reg fr)) eqn:Er; [|reflexivity].
+    exfalso. apply H2. destruct r, (pe_reg fr); try reflexivity; discriminate.
+  - unfold sp, getr, setr. cbn [rf]. destruct (reg_eqb r RSP) eqn:Er; [|reflexivity].
+    exfalso. apply H1. destruct r; try reflexivity; discriminate.
+Qed.
+
+(* the procedure's operations = what the code runs, when the mov-saves come first *)
+Lemma ms_ops_saves fb u sv : forall rg m,
+  Forall (save_ok u) sv -> (sv <> [] -> fb = base_of u rg) ->
+  match run_ops_pe u sv rg m with
+  | OpCont rg' => ms_ops fb u sv rg m = Some (inl rg') /\ base_of u rg' = base_of u rg
+  | OpBreak ra rg' => False
+  | _ => ms_ops fb u sv rg m = None
+  end.
+Proof.
+  induction sv as [|o t IH]; intros rg m Hok Hfb; cbn [run_ops_pe ms_ops]; [split; reflexivity|].
+  inversion Hok as [|? ? Ho Ht]; subst.
+  assert (Hb : fb = base_of u rg) by (apply Hfb; discriminate).
+  rewrite (ms_op_resolve fb u rg m o (fun _ => Hb)).
+  destruct o; cbn [save_ok] in Ho; try contradiction.
+  - destruct Ho as [Hr1 Hr2]. cbn [resolve_operation].
+    destruct (resolve_offset u rg off) as [a|]; [|reflexivity].
+    destruct (m a) as [v|]; [|reflexivity].
+    specialize (IH (setr rg (pe_reg r) v) m Ht).
+    rewrite (base_of_setr u rg (pe_reg r) v Hr1 Hr2) in IH. specialize (IH (fun _ => Hb)).
+    destruct (run_ops_pe u t (setr rg (pe_reg r) v) m); auto.
+  - cbn [resolve_operation].
+    destruct (resolve_offset u rg off) as [a|]; [|reflexivity].
+    destruct (m a) as [v|]; [|reflexivity].
+    destruct (a + 8 <? W64); [|reflexivity]. destruct (m (a + 8)); [|reflexivity].
+    specialize (IH rg m Ht (fun _ => Hb)). destruct (run_ops_pe u t rg m); auto.
+Qed.
+
+Lemma ms_ops_nosave fb u ops : forall rg m,
+  Forall (fun o => is_save o = false) ops ->
+  ms_ops fb u ops rg m = match run_ops_pe u ops rg m with
+                         | OpCont rg' => Some (inl rg')
+                         | OpBreak ra rg' => Some (inr (ra, rg'))
+                         | _ => None
+                         end.
+Proof.
+  induction ops as [|o t IH]; intros rg m Hn; cbn [ms_ops run_ops_pe]; [reflexivity|].
+  inversion Hn as [|? ? Ho Ht]; subst.
+  rewrite (ms_op_resolve fb u rg m o) by (intros H; congruence).
+  destruct (resolve_operation u rg m o); try reflexivity. apply IH. exact Ht.
+Qed.
+
+Lemma run_ops_pe_app u a b : forall rg m,
+  run_ops_pe u (a ++ b) rg m = match run_ops_pe u a rg m with OpCont rg' => run_ops_pe u b rg' m | r => r end.
+Proof.
+  induction a as [|o t IH]; intros rg m; cbn [app run_ops_pe]; [reflexivity|].
+  destruct (resolve_operation u rg m o); try reflexivity. apply IH.
+Qed.
+
+Lemma ms_ops_app fb u a b : forall rg m,
+  ms_ops fb u (a ++ b) rg m = match ms_ops fb u a rg m with Some (inl rg') => ms_ops fb u b rg' m | r => r end.
+Proof.
+  induction a as [|o t IH]; intros rg m; cbn [app ms_ops]; [reflexivity|].
+  destruct (ms_op fb u rg m o); try reflexivity. apply IH.
+Qed.
+
+Lemma ms_ops_run fb u sv rest rg m :
+  Forall (save_ok u) sv -> Forall (fun o => is_save o = false) rest -> (sv <> [] -> fb = base_of u rg) ->
+  ms_ops fb u (sv ++ rest) rg m = match run_ops_pe u (sv ++ rest) rg m with
+                                  | OpCont rg' => Some (inl rg')
+                                  | OpBreak ra rg' => Some (inr (ra, rg'))
+                                  | _ => None
+                                  end.
+Proof.
+  intros Hsv Hrest Hfb. rewrite ms_ops_app, run_ops_pe_app.
+  pose proof (ms_ops_saves fb u sv rg m Hsv Hfb) as H.
+  destruct (run_ops_pe u sv rg m) as [rg'|ra rg'|rg'|].
+  - destruct H as [-> _]. apply ms_ops_nosave. exact Hrest.
+  - contradiction.
+  - rewrite H. reflexivity.
+  - rewrite H. reflexivity.
+Qed.
+
+Lemma resolve_fp_eq u u' rg m o :
+  ui_fpreg u = ui_fpreg u' -> ui_fpoff u = ui_fpoff u' ->
+  resolve_operation u rg m o = resolve_operation u' rg m o.
+Proof.
+  intros H1 H2. destruct o; cbn [resolve_operation]; unfold resolve_offset; rewrite ?H1, ?H2; reflexivity.
+Qed.
+
+Lemma ms_op_fp_eq fb u u' rg m o :
+  ui_fpreg u = ui_fpreg u' -> ui_fpoff u = ui_fpoff u' -> ms_op fb u rg m o = ms_op fb u' rg m o.
+Proof.
+  intros H1 H2. destruct o; try reflexivity; cbn [ms_op]; apply resolve_fp_eq; assumption.
+Qed.
+
+Lemma ms_ops_fp_eq fb u u' ops : forall rg m,
+  ui_fpreg u = ui_fpreg u' -> ui_fpoff u = ui_fpoff u' -> ms_ops fb u ops rg m = ms_ops fb u' ops rg m.
+Proof.
+  induction ops as [|o t IH]; intros rg m H1 H2; cbn [ms_ops]; [reflexivity|].
+  rewrite (ms_op_fp_eq fb u u' rg m o H1 H2). destruct (ms_op fb u' rg m o); try reflexivity.
+  apply IH; assumption.
+Qed.
+
+Lemma ops_after_false offset ops : ops_after offset false ops = map snd ops.
+Proof. destruct ops as [|[o op] t]; reflexivity. Qed.
+
+Definition same_fp (u0 u : uinfo) : Prop := ui_fpreg u = ui_fpreg u0 /\ ui_fpoff u = ui_fpoff u0.
+
+Lemma chain_infos_head pe : forall fuel u l, chain_infos fuel pe u = Ok (Some l) -> exists t, l = u :: t.
+Proof.
+  destruct fuel as [|f]; intros u l; cbn [chain_infos]; [discriminate|].
+  destruct (ui_chain u) as [rva|].
+  - destruct (ui_at (pe_uinfos pe) rva) as [u'| |]; try discriminate.
+    destruct (chain_infos f pe u') as [[l'|]|e|s|]; try discriminate.
+    intros H; inversion H. eexists; reflexivity.
+  - intros H; inversion H. eexists; reflexivity.
+Qed.
+
+(* following the chain as the procedure does = running the concatenated operations *)
+Lemma ms_chain_ops fb pe u0 offset m : forall fuel u chained infos rg,
+  chain_infos fuel pe u = Ok (Some infos) -> Forall (same_fp u0) infos ->
+  ms_chain fuel fb pe u chained offset rg m =
+  ms_ops fb u0 (ops_after offset (negb chained) (ui_ops u) ++ flat_map (fun v => map snd (ui_ops v)) (tl infos)) rg m.
+Proof.
+  induction fuel as [|f IH]; intros u chained infos rg; cbn [chain_infos ms_chain]; [discriminate|].
+  destruct (ui_chain u) as [rva|] eqn:Ech.
+  - destruct (ui_at (pe_uinfos pe) rva) as [u'| |] eqn:Eu; try discriminate.
+    destruct (chain_infos f pe u') as [[l|]|e|s|] eqn:Ec; try discriminate.
+    intros H Hall; inversion H; subst infos. inversion Hall as [|? ? Hu Hl]; subst.
+    cbn [tl]. rewrite ms_ops_app.
+    rewrite (ms_ops_fp_eq fb u u0 _ rg m (proj1 Hu) (proj2 Hu)).
+    destruct (ms_ops fb u0 (ops_after offset (negb chained) (ui_ops u)) rg m) as [[rg'|[ra rg']]|]; try reflexivity.
+    rewrite (IH u' true l rg' Ec Hl). cbn [negb]. rewrite ops_after_false.
+    destruct (chain_infos_head pe f u' l Ec) as [t ->]. cbn [tl flat_map]. reflexivity.
+  - intros H Hall; inversion H; subst infos. inversion Hall as [|? ? Hu Hl]; subst.
+    cbn [tl flat_map]. rewrite app_nil_r.
+    rewrite (ms_ops_fp_eq fb u u0 _ rg m (proj1 Hu) (proj2 Hu)).
+    destruct (ms_ops fb u0 (ops_after offset (negb chained) (ui_ops u)) rg m) as [[rg'|[ra rg']]|]; reflexivity.
+Qed.
+
+(* ---------- the main theorem ---------- *)
+Lemma pe_lookup_begin l a : forall prev f,
+  (forall p, prev = Some p -> rt_begin p <= a) -> pe_lookup l a prev = Some f -> rt_begin f <= a.
+Proof.
+  induction l as [|x t IH]; intros prev f Hp; cbn [pe_lookup].
+  - unfold rt_check. destruct prev as [p|]; [|discriminate].
+    destruct (a <? rt_end p); [|discriminate]. intros H; inversion H; subst. apply Hp; reflexivity.
+  - destruct (rt_begin x =? a) eqn:E1; [intros H; inversion H; subst; lia|].
+    destruct (a <? rt_begin x) eqn:E2.
+    + unfold rt_check. destruct prev as [p|]; [|discriminate].
+      destruct (a <? rt_end p); [|discriminate]. intros H; inversion H; subst. apply Hp; reflexivity.
+    + apply IH. intros p H; inversion H; subst. lia.
+Qed.
+
+Lemma all_pops_no_none l rs : all_pops l = Some rs -> Forall (fun o => o <> OopNone) l.
+Proof. intros H. apply all_pops_map in H. subst l. induction rs; constructor; [discriminate | assumption]. Qed.
+
+Lemma rule_seq_no_none l x : rule_for_sequence l = Some x -> Forall (fun o => o <> OopNone) l.
+Proof.
+  unfold rule_for_sequence.
+  destruct l as [|o t]; [constructor|].
+  destruct o.
+  - cbn [all_pops]. discriminate.
+  - destruct (all_pops t) eqn:E; [|discriminate]. intros _. constructor; [discriminate|].
+    eapply all_pops_no_none; eassumption.
+  - destruct (all_pops (OopPop r :: t)) eqn:E; [|discriminate]. intros _. eapply all_pops_no_none; eassumption.
+Qed.
+
+Lemma rule_seq_ok l x : rule_for_sequence l = Some x -> exists r, x = Ok r.
+Proof.
+  unfold rule_for_sequence.
+  destruct (match l with OopOff k :: t => (k, t) | _ => (0, l) end) as [k rest].
+  destruct (all_pops rest) as [rs|]; [|discriminate].
+  destruct (Nat.ltb 8 (length rs)); [discriminate|].
+  destruct (Nat.eqb (length rs) 0 && (k =? 0)); [intros H; inversion H; eexists; reflexivity|].
+  pose proof (encode_never_panics rs) as Hnp.
+  destruct (encode rs) as [[[cnt enc]| | |]|]; try discriminate; try contradiction;
+    intros H; inversion H; eexists; reflexivity.
+Qed.
+
+Lemma run_oops_no_break l : forall rg m ra rg', run_oops l rg m <> OpBreak ra rg'.
+Proof.
+  induction l as [|o t IH]; intros rg m ra rg'; cbn [run_oops]; [discriminate|].
+  destruct o; [discriminate | |].
+  - destruct (sp rg + k * 8 <? W64); [apply IH | discriminate].
+  - destruct (m (sp rg)); [|discriminate]. destruct (sp rg + 8 <? W64); [apply IH | discriminate].
+Qed.
+
+Lemma Forall_map_iff {A B} (f : A -> B) (P : B -> Prop) l : Forall P (map f l) -> Forall (fun x => P (f x)) l.
+Proof. induction l; intros H; inversion H; subst; constructor; auto. Qed.
+
+(* the text view a first frame needs (otherwise framehop reports MissingInstructionData) *)
+Definition text_covers (pe : pe_data) (f : rtfunc) (address : N) : Prop :=
+  exists lo hi bytes, pe_text pe = Some (lo, hi, bytes) /\ lo <= address < hi /\ address <= rt_end f /\
+    (N.to_nat (address - lo) <= length bytes)%nat /\
+    (N.to_nat (rt_end f - address) <= length (skipn (N.to_nat (address - lo)) bytes))%nat.
+
+(* well-formed unwind data for the function at [address] *)
+Definition pe_wf_at (pe : pe_data) (address : N) (first : bool) : Prop :=
+  forall f u0, pe_lookup (pe_funcs pe) address None = Some f -> ui_at (pe_uinfos pe) (rt_uinfo f) = UiOk u0 ->
+    (* the chain is present, finite, and keeps the frame register of the primary info *)
+    (exists infos, chain_infos (S (length (pe_uinfos pe))) pe u0 = Ok (Some infos) /\ Forall (same_fp u0) infos /\
+                   Forall (fun u => Forall (fun o => uop_aligned (snd o)) (ui_ops u)) infos /\
+                   (* mov-saves are listed first (compilers give them the end-of-prolog offset), do not target
+                      rsp or the frame register, and are in force only once the frame register is established *)
+                   exists sv rest, all_ops (address - rt_begin f) infos = sv ++ rest /\
+                     Forall (save_ok u0) sv /\ Forall (fun o => is_save o = false) rest /\
+                     (sv <> [] -> ui_fpreg u0 <> None -> established u0 (address - rt_begin f) = true)) /\
+    (* stack adjustments in epilogs are multiples of 8 *)
+    (forall insns, epilog_at pe f u0 address = Some insns -> Forall einsn_aligned insns) /\
+    (* the frame being unwound: innermost frames need the text bytes; callers are not inside an epilog *)
+    (if first then text_covers pe f address else epilog_at pe f u0 address = None).
+
+Lemma ops_after_aligned offset b ops :
+  Forall (fun o => uop_aligned (snd o)) ops -> Forall uop_aligned (ops_after offset b ops).
+Proof.
+  unfold ops_after. induction ops as [|[o op] t IH]; intros H; [constructor|].
+  inversion H; subst. destruct (b && (offset <? o)); [apply IH; assumption|].
+  cbn [map snd]. constructor; [assumption|]. clear -H3. induction t as [|[? ?] ? IHt]; [constructor|].
+  inversion H3; subst. constructor; auto.
+Qed.
+
+Lemma all_ops_aligned offset infos :
+  Forall (fun u => Forall (fun o => uop_aligned (snd o)) (ui_ops u)) infos -> Forall uop_aligned (all_ops offset infos).
+Proof.
+  unfold all_ops. destruct infos as [|u0 rest]; [constructor|]. intros H. inversion H; subst.
+  apply Forall_app. split; [apply ops_after_aligned; assumption|].
+  clear -H3. induction rest as [|v t IH]; [constructor|]. inversion H3; subst. cbn [flat_map].
+  apply Forall_app. split; [|apply IH; assumption].
+  clear -H1. induction (ui_ops v) as [|[? ?] ? IHl]; [constructor|]. inversion H1; subst. constructor; auto.
+Qed.
+
+Theorem pe_matches_ms pe address first rg m ra rg_ms :
+  sp rg < W64 -> pe_wf_at pe address first ->
+  ms_unwind pe address rg m = Some (ra, rg_ms) ->
+  fst (pe_outcome pe address first rg m) = (if ra =? 0 then Ok None else Ok (Some ra)) /\
+  (ra <> 0 -> rf_eq (snd (pe_outcome pe address first rg m)) rg_ms).
+Proof.
+  intros Hsp Hwf. unfold ms_unwind, pe_outcome, pe_step.
+  destruct (pe_lookup (pe_funcs pe) address None) as [f|] eqn:Elk.
+  2:{ cbn [fst]. intros Hfin. apply (rule_exec_oops [] JustReturn first rg m rg ra rg_ms Hsp); [reflexivity | reflexivity | exact Hfin]. }
+  destruct (ui_at (pe_uinfos pe) (rt_uinfo f)) as [u0| |] eqn:Eui; try discriminate.
+  destruct (Hwf f u0 Elk Eui) as ((infos & Hch & Hfp & Hal & sv & rest0 & Hsplit & Hsv & Hrest & Hest) & Hepal & Hfr).
+  assert (Hbeg : rt_begin f <= address) by (eapply pe_lookup_begin; [|exact Elk]; discriminate).
+  (* the unwind-code path, shared by both cases *)
+  assert (Hcodes : epilog_at pe f u0 address = None ->
+    match ms_chain (S (length (pe_uinfos pe))) (ms_frame_base u0 (address - rt_begin f) rg) pe u0 false (address - rt_begin f) rg m with
+    | Some (inl rg') => ms_final rg' m | Some (inr r) => Some r | None => None end = Some (ra, rg_ms) ->
+    let r := match chain_infos (S (length (pe_uinfos pe))) pe u0 with
+        | Hang => (CbHang, pe_eff_alloc)
+        | Ok None => (CbErr rg, pe_eff_alloc)
+        | Ok (Some infos) =>
+          if address <? rt_begin f then (CbPanic S_pe_own_sub, pe_eff_alloc)
+          else
+            let ops := all_ops (address - rt_begin f) infos in
+            match rule_for_sequence (map oop_of_uop ops) with
+            | Some (Ok r) => (CbRule r, pe_eff_alloc)
+            | Some (Panic s) => (CbPanic s, pe_eff_alloc)
+            | Some _ => (CbHang, pe_eff_alloc)
+            | None =>
+              match run_ops_pe u0 ops rg m with
+              | OpCont rg' => (final_pop true rg' m, pe_eff_alloc)
+              | OpBreak ra rg' => (CbUncacheable ra rg', pe_eff_alloc)
+              | OpNoStack rg' => (CbErrV rg', pe_eff_alloc)
+              | OpPanic => (CbPanic S_pe_dep, pe_eff_alloc)
+              end
+            end
+        | _ => (CbHang, pe_eff_alloc)
+        end in
+    fst (match fst r with
+      | CbRule r => exec ra_addr_checked r first rg m
+      | CbUncacheable ra rg' => (if ra =? 0 then Ok None else Ok (Some ra), rg')
+      | CbErr rg1 | CbErrV rg1 => exec ra_addr_checked fallback_rule first rg1 m
+      | CbPanic s => (Panic s, rg)
+      | CbHang => (Hang, rg)
+      end) = (if ra =? 0 then Ok None else Ok (Some ra)) /\
+    (ra <> 0 -> rf_eq (snd (match fst r with
+      | CbRule r => exec ra_addr_checked r first rg m
+      | CbUncacheable ra rg' => (if ra =? 0 then Ok None else Ok (Some ra), rg')
+      | CbErr rg1 | CbErrV rg1 => exec ra_addr_checked fallback_rule first rg1 m
+      | CbPanic s => (Panic s, rg)
+      | CbHang => (Hang, rg)
+      end)) rg_ms)).
+  { intros _. rewrite Hch. destruct (chain_infos_head _ _ _ _ Hch) as [rest Hinf].
+    rewrite (ms_chain_ops _ pe u0 (address - rt_begin f) m _ u0 false infos rg Hch Hfp).
+    destruct (address <? rt_begin f) eqn:Eb; [lia|]. cbn [negb].
+    assert (Hops : ops_after (address - rt_begin f) true (ui_ops u0) ++ flat_map (fun v => map snd (ui_ops v)) (tl infos)
+                   = all_ops (address - rt_begin f) infos) by (subst infos; reflexivity).
+    rewrite Hops. set (ops := all_ops (address - rt_begin f) infos).
+    assert (Hopal : Forall uop_aligned ops) by (apply all_ops_aligned; exact Hal).
+    assert (Hrun : ms_ops (ms_frame_base u0 (address - rt_begin f) rg) u0 ops rg m =
+                   match run_ops_pe u0 ops rg m with
+                   | OpCont rg' => Some (inl rg') | OpBreak ra rg' => Some (inr (ra, rg')) | _ => None end).
+    { unfold ops. rewrite Hsplit. apply ms_ops_run; [exact Hsv | exact Hrest |].
+      intros Hne. unfold ms_frame_base. destruct (ui_fpreg u0) as [fr|] eqn:Efr.
+      - rewrite (Hest Hne) by discriminate. reflexivity.
+      - unfold base_of. rewrite Efr. destruct (established u0 (address - rt_begin f)); reflexivity. }
+    rewrite Hrun. cbv zeta.
+    destruct (rule_for_sequence (map oop_of_uop ops)) as [x|] eqn:Er.
+    - destruct (rule_seq_ok _ _ Er) as [r ->]. cbn [fst].
+      pose proof (Forall_map_iff _ _ _ (rule_seq_no_none _ _ Er)) as Hnn.
+      rewrite (run_ops_oops u0 ops rg m Hopal Hnn).
+      destruct (run_oops (map oop_of_uop ops) rg m) as [rgB|ra' rgB|rgB|] eqn:Erun; try discriminate.
+      + intros Hfin. eapply rule_exec_oops; eassumption.
+      + exfalso. eapply run_oops_no_break; eassumption.
+    - destruct (run_ops_pe u0 ops rg m) as [rgB|ra' rgB|rgB|] eqn:Erun; try discriminate.
+      + intros Hfin. destruct (ms_final_some _ _ _ _ Hfin) as (Hm & H8 & ->).
+        unfold final_pop. rewrite Hm. destruct (sp rgB + 8 <? W64) eqn:E8; [|lia].
+        cbn [fst snd]. split; [reflexivity | intros _ r; reflexivity].
+      + intros H; inversion H; subst. cbn [fst snd]. split; [reflexivity | intros _ r; reflexivity]. }
+  destruct first.
+  - (* innermost frame *)
+    destruct Hfr as (lo & hi & bytes & Htx & Hr1 & Hr2 & Hl1 & Hl2).
+    assert (Hep : epilog_at pe f u0 address =
+                  eparse_sequence (firstn (N.to_nat (rt_end f - address)) (skipn (N.to_nat (address - lo)) bytes)) (ui_fpreg u0)).
+    { unfold epilog_at. rewrite Htx.
+      destruct ((lo <=? address) && (address <? hi) && (address <=? rt_end f)) eqn:E; [reflexivity | lia]. }
+    rewrite Htx. destruct (rt_end f <? address) eqn:E1; [lia|].
+    destruct ((lo <=? address) && (address <? hi)) eqn:E2; [|lia].
+    destruct (Nat.ltb (length bytes) (N.to_nat (address - lo))) eqn:E3; [apply Nat.ltb_lt in E3; lia|].
+    destruct (Nat.ltb (length (skipn (N.to_nat (address - lo)) bytes)) (N.to_nat (rt_end f - address))) eqn:E4;
+      [apply Nat.ltb_lt in E4; lia|].
+    rewrite <- Hep.
+    destruct (epilog_at pe f u0 address) as [insns|] eqn:Eep.
+    + pose proof (Hepal insns eq_refl) as Hia.
+      destruct (run_epilog false u0 insns rg m) as [rgB| | |] eqn:Erun; try discriminate.
+      intros Hfin.
+      destruct (rule_for_sequence (map oop_of_einsn insns)) as [x|] eqn:Er.
+      * destruct (rule_seq_ok _ _ Er) as [r ->]. cbn [fst].
+        pose proof (Forall_map_iff _ _ _ (rule_seq_no_none _ _ Er)) as Hnn.
+        rewrite (run_epilog_oops u0 insns rg m Hia Hnn) in Erun.
+        eapply rule_exec_oops; eassumption.
+      * rewrite (run_epilog_checked u0 insns rg m rgB Erun).
+        destruct (ms_final_some _ _ _ _ Hfin) as (Hm & H8 & ->).
+        unfold final_pop. rewrite Hm. destruct (sp rgB + 8 <? W64) eqn:E8; [|lia].
+        cbn [fst snd]. split; [reflexivity | intros _ r; reflexivity].
+    + apply Hcodes. reflexivity.
+  - rewrite Hfr. apply Hcodes. exact Hfr.
+Qed.
+
+(* ---------- through the unwinder: one call, then whole walks ---------- *)
+Arguments cb_x86 : simpl never.
+Arguments find_module : simpl never.
+Arguments cache_lookup : simpl never.
+Arguments pe_step : simpl never.
+
+Lemma unwind_frame_via_pe u a x rg m md rel pe :
+  lookup_address a = Ok x -> find_module mdata (mods _ u) x = Ok (Some (md, rel)) -> mdat md = MPe pe ->
+  let o := unwind_frame_x u (cache_new rule) a rg m in
+  (o_res _ _ o, o_regs _ _ o) = pe_outcome pe rel (negb (is_ra a)) rg m.
+Proof.
+  intros Hx Hf Hd. cbv zeta. unfold unwind_frame_x, unwind_frame. rewrite Hx.
+  destruct (X86Walk.fresh_lookup_miss x (gen _ u)) as [c1 Hl]. rewrite Hl, Hf.
+  unfold pe_outcome, cb_x86. rewrite Hd.
+  destruct (pe_step true pe rel (negb (is_ra a)) rg m) as [cr ef]. cbn [fst].
+  destruct cr.
+  - unfold exec_x. destruct (exec ra_addr_checked r (negb (is_ra a)) rg m). reflexivity.
+  - reflexivity.
+  - unfold exec_x. destruct (exec ra_addr_checked fallback_rule (negb (is_ra a)) rg0 m). reflexivity.
+  - unfold exec_x. destruct (exec ra_addr_checked fallback_rule (negb (is_ra a)) rg0 m). reflexivity.
+  - reflexivity.
+  - reflexivity.
+Qed.
+
+(* the frame at [a] lies in a PE module whose unwind data is well-formed there, and the documented
+   procedure yields (ra, rg_ms) *)
+Definition pe_described (u : xunwinder) (m : mem) (a : faddr) (rg : regs) (ra : N) (rg_ms : regs) : Prop :=
+  exists x md rel pe,
+    lookup_address a = Ok x /\ find_module mdata (mods _ u) x = Ok (Some (md, rel)) /\ mdat md = MPe pe /\
+    sp rg < W64 /\ pe_wf_at pe rel (negb (is_ra a)) /\ ms_unwind pe rel rg m = Some (ra, rg_ms).
+
+Theorem pe_step_matches_procedure u m a rg ra rg_ms :
+  pe_described u m a rg ra rg_ms ->
+  let o := unwind_frame_x u (cache_new rule) a rg m in
+  o_res _ _ o = (if ra =? 0 then Ok None else Ok (Some ra)) /\ (ra <> 0 -> rf_eq (o_regs _ _ o) rg_ms).
+Proof.
+  intros (x & md & rel & pe & Hx & Hf & Hd & Hsp & Hwf & Hms). cbv zeta.
+  pose proof (unwind_frame_via_pe u a x rg m md rel pe Hx Hf Hd) as Hvia. cbv zeta in Hvia.
+  destruct (pe_matches_ms pe rel (negb (is_ra a)) rg m ra rg_ms Hsp Hwf Hms) as [H1 H2].
+  rewrite <- Hvia in H1, H2. cbn [fst snd] in H1, H2. split; assumption.
+Qed.
+
+(* the true chain of a PE program: every activation is described; the root's return address is null *)
+Inductive pe_true_chain (u : xunwinder) (m : mem) : faddr -> regs -> list (N * N * N) -> Prop :=
+| ptc_root a rg rg_ms : pe_described u m a rg 0 rg_ms -> pe_true_chain u m a rg []
+| ptc_frame a rg ra rg_ms rest :
+    ra <> 0 -> pe_described u m a rg ra rg_ms ->
+    (forall rg', rf_eq rg' rg_ms -> pe_true_chain u m (RA ra) rg' rest) ->
+    pe_true_chain u m a rg ((ra, sp rg_ms, bp rg_ms) :: rest).
+
+Theorem pe_walk_true_chain u m a rg chain :
+  pe_true_chain u m a rg chain ->
+  X86Chain.walk_fresh u m a rg (S (length chain)) = (chain, Ok None).
+Proof.
+  induction 1 as [a rg rg_ms Hd | a rg ra rg_ms rest Hnz Hd Hnext IH]; cbn [length];
+    rewrite X86Chain.walk_fresh_S; cbv zeta.
+  - destruct (pe_step_matches_procedure u m a rg 0 rg_ms Hd) as [Hres _]. cbv zeta in Hres.
+    rewrite Hres. reflexivity.
+  - destruct (pe_step_matches_procedure u m a rg ra rg_ms Hd) as [Hres Hregs]. cbv zeta in Hres, Hregs.
+    rewrite Hres. destruct (ra =? 0) eqn:E0; [lia|].
+    specialize (Hregs Hnz). rewrite (IH _ Hregs).
+    unfold sp, bp, getr. rewrite (Hregs RSP), (Hregs RBP). reflexivity.
 Qed.
